@@ -50,6 +50,17 @@ theorem C20_extract_exact (pat : String) (g : String → Bool) (stem : String) (
     (Zipm.extractArchive pat g stem (ms.map (·.name)) ms).map (·.1) = (ms.filter (Zipm.Spec.selected pat g)).map (·.name) :=
   Zipm.extract_exact pat g stem ms hd he
 
+/-- **what lands**: the members are written one after the other; whatever lands was selected, can be created as a file, and no
+    two landed files denote the same path - no member's content is overwritten by another member's (`a.dlt`, `./a.dlt`) -/
+theorem C20_land_faithful (l : List (String × List UInt8)) :
+    (∀ x ∈ Zipm.land l, x ∈ l ∧ Zipm.creatable x.1 = true) ∧ ((Zipm.land l).map Zipm.pathOf).Nodup :=
+  Zipm.land_sound l
+
+/-- ... and when every selected name can be created as a file and no two of them denote the same path, every selected member
+    lands: together with `C20_extract_exact`, exactly the matching members are extracted and reported -/
+theorem C20_land_all (l : List (String × List UInt8)) (hc : ∀ x ∈ l, Zipm.creatable x.1 = true)
+    (hn : (l.map Zipm.pathOf).Nodup) : Zipm.land l = l := Zipm.land_id l hc hn
+
 /-- non-vacuity: hostile names (`../evil.dlt`, `/etc/hostname`) are refused by the walk, a harmless `..` inside
     (`dir/../x.dlt`) is accepted and stays below the directory -/
 example : Zipm.staysInside [.parent, .normal "evil.dlt"] = false ∧ Zipm.staysInside [.root, .normal "etc", .normal "hostname"] = false ∧
